@@ -26,6 +26,20 @@ THEOREMS = [
     "BeyondVerif.C08.ephem_iter_own",
     "BeyondVerif.C08.ephem_iter_own_backward",
     "BeyondVerif.C08.ephem_iter_dates_list",
+    "BeyondVerif.C08.ephem_iter_own_sorted",
+    "BeyondVerif.C08.ephem_iter_own_backward_sorted",
+    "BeyondVerif.C08.ephem_iter_strict_start_refused",
+    "BeyondVerif.C08.ephem_iter_strict_stop_refused",
+    "BeyondVerif.C08.ephem_iter_strict_backward_refused",
+    "BeyondVerif.C08.ephem_iter_clamped_forward",
+    "BeyondVerif.C08.ephem_iter_clamped_backward",
+    "BeyondVerif.C08.rangeRun_inclusive_forward",
+    "BeyondVerif.C08.rangeRun_inclusive_backward",
+    "BeyondVerif.C08.rangeRun_exclusive_forward",
+    "BeyondVerif.C08.iter_dates_range",
+    "BeyondVerif.C08.ephem_iter_dates_range",
+    "BeyondVerif.C08.numerical_iter_dates_range_forward",
+    "BeyondVerif.C08.numerical_iter_dates_range_backward",
     "BeyondVerif.C08.numIter_eq_numCore",
     "BeyondVerif.C08.numerical_iter_dates_forward",
     "BeyondVerif.C08.numerical_iter_dates_backward",
@@ -65,9 +79,12 @@ LEVEL_TEXT = ("Lean theorems over an integer-microsecond model of Date.range, An
               "numerical: KeplerNum; ephemeris), for all epochs, starts, stops (date or timedelta), steps of either sign (dividing the span or not; absent = "
               "integration step for KeplerNum), with or without listeners: the iterator yields exactly start + k*step, k = 0..floor(|stop-start|/|step|), in order, "
               "none beyond stop, forward (step > 0) and backward (step flipped or negative) - iter_dates_forward/backward, numerical_iter_dates_forward/backward "
-              "(any span however short, stop on or off the integration grid), ephem_iter_dates_forward/backward (start, stop inside the tabulated span), by "
+              "(any span however short, stop on or off the integration grid), ephem_iter_dates_forward/backward (start, stop inside the tabulated span; outside it: "
+              "refused when strict, ephem_iter_strict_*_refused, clamped to the span otherwise, ephem_iter_clamped_forward/backward; without step: exactly the tabulated "
+              "dates within the range for sorted points, ephem_iter_own_sorted / _backward_sorted), by "
               "induction over the loops; explicit lists are yielded as given, the empty list yields nothing (iter_dates_list, numerical_iter_dates_list, "
-              "ephem_iter_dates_list); error kinds of the argument handling; for EVERY history of propagate/iter calls and in-place modifications of the orbits on "
+              "ephem_iter_dates_list), a DateRange object passed as dates= yields exactly the dates of the object in all three families, both directions, inclusive or "
+              "not (iter_dates_range, ephem_iter_dates_range, numerical_iter_dates_range_forward/backward, rangeRun_*); error kinds of the argument handling; for EVERY history of propagate/iter calls and in-place modifications of the orbits on "
               "shared propagator and listener objects (their coordinates; for Sgp4 also their drag terms), every propagator kind, the result of the next call equals "
               "that on fresh objects holding the current orbit values (propagate_pure, by an invariant over histories; propagate_pure_not_sgp4 without any hypothesis; "
               "for Sgp4 the model's orbit value must be what Sgp4._state compares - coordinates, date, form, frame, bstar, ndot, ndotdot since 3d341d9 - "
@@ -105,9 +122,8 @@ NOT_COVERED = [
     "inputs outside the quantifier, modelled and in the correspondence but without theorem: a forward range with a negative step (analytical: ValueError at once, iter_incoherent; Ephem and KeplerNum: dates until the span is left, then ValueError); step = 0 (analytical: ValueError; Ephem / KeplerNum forward: never terminates, both sides stop at the cap; KeplerNum backward: ValueError); KeplerNum.iter(start=None): AttributeError",
     "event search (_bisect) is C10's; listeners enter here only through clear_listeners / Listener.prev / the number of events found per call",
 ]
-OPEN = ["ownPts / ownPtsBack (Ephem.iter without step) are proved equal to the code's loops by definition only; their characterisation as 'the tabulated dates within [start, stop]' for sorted points is proved for integration grids only (Lemmas/Iter.lean ownPts_grid, used by numerical_iter_dates_forward)",
-        "Ephem.iter with start or stop outside the tabulated span (strict: ValueError; strict=False: clamped, forward and backward): modelled and in the correspondence, no theorem",
-        "Dates given as a DateRange object (all three families; for KeplerNum also backward DateRanges): modelled and in the correspondence, no theorem"]
+OPEN = ["Ephem.iter with start and/or stop ABSENT (defaults: the ends of the tabulated span) has no theorem of its own (modelled, in the correspondence); the clamping theorems (strict=False) are stated for a stop given as a date, not as a timedelta (which the code resolves from the unclamped start)",
+        "an exclusive BACKWARD DateRange is covered by iter_dates_range / ephem_iter_dates_range / numerical_iter_dates_range_backward (the iterator yields exactly what the object yields, rangeRun) but rangeRun itself is characterised as a grid only for inclusive ranges and exclusive forward ranges"]
 RULE = ("correspondence: per propagator kind (sgp4, kepler, j2, none, num, cw, ephem) random keyword combinations of iter (start absent/None/before/at/after epoch, "
         "stop date/timedelta/absent, step absent/None/positive/negative/zero, dates list (empty, unordered, repeated) / DateRange (both directions), strict, backward "
         "ranges inside and outside an ephemeris span) and random histories of <= 8 propagate/iter calls on two "
